@@ -41,14 +41,18 @@ WsUnits  == Byte({32, 9, 10, 13, 0, 1, 11, 49, 91, 93, 239, 34}) \cup {<<239, 18
 Ones(n) == [i \in 1..n |-> 49]
 Rep(c, n) == [i \in 1..n |-> c]
 LongStarts == {Ones(61), <<45>> \o Ones(61), Ones(30) \o <<46>> \o Ones(30), Ones(58) \o <<101, 49>>,
-               <<45>> \o Rep(101, 61), <<45>> \o Rep(46, 61), <<91, 45>> \o Rep(45, 61), <<49>> \o Rep(101, 61)}
+               <<45>> \o Rep(101, 61), <<45>> \o Rep(46, 61), <<91, 45>> \o Rep(45, 61), <<49>> \o Rep(101, 61),
+               \* a number that fills the 63-byte copy inside a container: what follows it is judged by the container, not swallowed with it
+               <<91>> \o Ones(61), <<91>> \o Ones(62), <<123, 34, 97, 34, 58>> \o Ones(62)}
+              \cup UNION {{<<91>> \o Ones(n) \o t \o <<93>>, <<123, 34, 97, 34, 58>> \o Ones(n) \o t \o <<125>>, <<91, 48, 44>> \o Ones(n) \o t \o <<44, 48, 93>>}
+                          : n \in {62, 63, 64, 70}, t \in {<<45>>, <<45, 43, 101, 46>>, <<101, 43>>, <<46, 53, 46, 53>>, <<43>>, <<101>>, <<46>>, <<45, 49>>}}
 
 \* nesting bookkeeping: complete empty containers and openers, so that depth accounting errors show within a few units
 \* strings that end in an escaped backslash / contain a quote or brackets: nothing inside a string counts as nesting
 NestUnits == Byte({91, 93, 44, 125, 49}) \cup {<<123, 125>>, <<91, 93>>, <<123, 34, 97, 34, 58>>}
              \cup {<<34, 92, 92, 34>>, <<34, 91, 34>>}
 Units == CASE U = "nest" -> NestUnits [] U = "tok" -> TokUnits [] U = "str" -> StrUnits [] U = "num" -> NumUnits [] U = "lit" -> LitUnits
-           [] U = "ws" -> WsUnits [] U = "long" -> Byte({49, 46, 101, 93}) [] OTHER -> {}
+           [] U = "ws" -> WsUnits [] U = "long" -> Byte({49, 46, 101, 93, 45, 43}) [] OTHER -> {}
 \* "big": long literals, wide containers, deep nesting; "allbytes": every byte value in every syntactic position (no growth: MaxUnits = 0)
 \* "deep": complete texts nested up to two levels beyond the limit, bare or behind a first element / member that is a string ending in an
 \* escaped backslash, holding a quote or holding brackets (nothing inside a string counts as nesting); growth by units stops at the first
